@@ -6,8 +6,10 @@ use crate::pixel::RawPixels;
 use crate::vklib::*;
 use crate::*;
 
-fn check(input_len: usize) {
-    assert!(max_reservation() <= reservation_bound(input_len), "largest single reservation <= 64 MiB + 8192 * input bytes");
+fn input_len(n: usize) {
+    unsafe {
+        crate::vklib::C12_INPUT_LEN = n;
+    }
 }
 
 /// image cel, raw (type 0) or compressed (type 2), declared width x height over all of u16 x u16
@@ -15,15 +17,14 @@ fn cel_declared_size(cel_type: u8, fmt: PixelFormat) {
     let mut buf: [u8; 24] = kani::any();
     buf[7] = cel_type;
     buf[8] = 0;
+    input_len(24);
     let r = crate::cel::parse_chunk(&buf, fmt);
-    check(24);
-    kani::cover!(rd16(&buf, 16) == 65535 && rd16(&buf, 18) == 65535);
     core::mem::forget(r);
 }
 #[kani::proof]
 #[kani::unwind(6)]
 #[kani::stub(alloc::fmt::format, crate::vklib::empty_format)]
-#[kani::stub(std::vec::Vec::with_capacity, crate::vklib::recording_with_capacity)]
+#[kani::stub(std::vec::Vec::with_capacity, crate::vklib::checking_with_capacity)]
 fn c12_q_raw_cel_declared_size() {
     cel_declared_size(0, PixelFormat::Rgba);
 }
@@ -31,23 +32,22 @@ fn c12_q_raw_cel_declared_size() {
 #[kani::proof]
 #[kani::unwind(4)]
 #[kani::stub(alloc::fmt::format, crate::vklib::empty_format)]
-#[kani::stub(std::vec::Vec::with_capacity, crate::vklib::recording_with_capacity)]
+#[kani::stub(std::vec::Vec::with_capacity, crate::vklib::checking_with_capacity)]
 fn c12_q_external_files_declared_count() {
     let buf: [u8; 12] = kani::any();
+    input_len(12);
     let r = ExternalFile::parse_chunk(&buf);
-    check(12);
-    kani::cover!(rd32(&buf, 0) == u32::MAX);
     core::mem::forget(r);
 }
 /// tags chunk: tag count over all of u16
 #[kani::proof]
 #[kani::unwind(4)]
 #[kani::stub(alloc::fmt::format, crate::vklib::empty_format)]
-#[kani::stub(std::vec::Vec::with_capacity, crate::vklib::recording_with_capacity)]
+#[kani::stub(std::vec::Vec::with_capacity, crate::vklib::checking_with_capacity)]
 fn c12_q_tags_declared_count() {
     let buf: [u8; 10] = kani::any();
+    input_len(10);
     let r = crate::tags::parse_chunk(&buf);
-    check(10);
-    kani::cover!(rd16(&buf, 0) == 65535);
     core::mem::forget(r);
 }
+
